@@ -137,6 +137,55 @@ fn check_any(input: &AnyInput, sched: &DecSched, ring_bits: u8, ring_start: u32,
             cx.class("ring-accepts-what-flat-rejects(pre-stream reference, allowed)");
         }
     }
+    // a proper prefix of a valid stream is never rejected: the stream minus its last byte, more input
+    // announced on every call, chunked as the schedule says (flat, and in the ring just used)
+    for (what, v, ring) in [("flat", &vf, false), ("ring", &vr, true)] {
+        if v.verdict != Verdict::Valid || v.consumed < 1 {
+            continue;
+        }
+        let pre = &data[..v.consumed - 1];
+        let mut buf = if ring { init.clone() } else { vec![0u8; vf.out.len() + 1] };
+        let mask = buf.len() - 1;
+        let mut out_pos = if ring { start } else { 0 };
+        let extra = if ring { 0 } else { TINFL_FLAG_USING_NON_WRAPPING_OUTPUT_BUF };
+        let mut d = DecompressorOxide::new();
+        let (mut ipos, mut ci, mut calls) = (0usize, 0usize, 0usize);
+        loop {
+            let take = if ci < sched.chunks.len() { (sched.chunks[ci] as usize).min(pre.len() - ipos) } else { pre.len() - ipos };
+            let (st, c, w) = guard(|| decompress(&mut d, &pre[ipos..ipos + take], &mut buf, out_pos, zf | extra | TINFL_FLAG_HAS_MORE_INPUT)).map_err(|pm| Violation::new(panic_sig("decompress", &pm), format!("panic on a proper prefix: {pm}")))?;
+            ipos += c;
+            out_pos = if ring { (out_pos + w) & mask } else { out_pos + w };
+            calls += 1;
+            match st {
+                TINFLStatus::NeedsMoreInput => {
+                    ci += 1;
+                    if ipos == pre.len() && ci >= sched.chunks.len() {
+                        break;
+                    }
+                }
+                TINFLStatus::HasMoreOutput if ring => {}
+                other => vfail!("c04:prefix-rejected", "{what}: the valid stream minus its last byte ({} of {} bytes offered so far, more input announced) got status {} (want NeedsMoreInput{})", ipos, pre.len(), status_name(other), if ring { " or HasMoreOutput at the end of the ring" } else { "" }),
+            }
+            if calls > pre.len() + v.out.len() + sched.chunks.len() + 64 {
+                break;
+            }
+        }
+        cx.evals(1);
+        cx.class("valid-minus-last-byte:not-rejected");
+    }
+    // zlib input with the checksum comparison switched off: everything but the trailer comparison
+    // still applies (header rules, deflate validity)
+    if zl {
+        let vi = ref_inflate(&data, &Opts { ignore_adler: true, max_out: 8 << 20, ..Opts::fmt(true) });
+        if vi.verdict != Verdict::TooBig {
+            let r = flat_oneshot(&data, zf | TINFL_FLAG_IGNORE_ADLER32, cap)?;
+            sound("flat one-call, IGNORE_ADLER32", &r, &vi)?;
+            let mut d = DecompressorOxide::new();
+            let r = drive(&mut d, &data, &DriveOpts { flags: zf | TINFL_FLAG_IGNORE_ADLER32, mode: BufMode::Flat { cap }, sched, canary: false, max_calls: None, announce: true, flat_start: 0, probe_full_ring: false }, plain_hook)?;
+            sound("flat scheduled, IGNORE_ADLER32", &r, &vi)?;
+            cx.evals(2);
+        }
+    }
     cx.evals(2);
     // vector function
     let v = guard(|| if zl { decompress_to_vec_zlib(&data) } else { decompress_to_vec(&data) }).map_err(|pm| Violation::new(panic_sig("to_vec", &pm), format!("decompress_to_vec panicked: {pm}")))?;
